@@ -78,10 +78,9 @@ Definition env_of (c : cli_case) : rev_env :=
 Definition model_rev (c : cli_case) : o_rev :=
   let P := cc_project c in
   match cmd_revision P (cc_message c) (cc_fills c) (env_of c) with
-  | Err _ | Ok RevRefused | Ok RevNeedsTty => OR_err
+  | Err _ | Ok RevRefused | Ok RevNeedsTty | Ok RevRefusedVersion | Ok RevRefusedExists => OR_err
   | Ok RevNothing => OR_nothing
-  | Ok (RevWrote f p) =>
-      if mem_str f (file_names P) then OR_wrote f p [f] [] else OR_wrote f p [] [f]
+  | Ok (RevWrote f p) => OR_wrote f p [] [f]
   end.
 
 Definition sql_matches (m o : o_sql) : bool :=
@@ -143,31 +142,5 @@ Definition known_C13_invalid_enum_fill (c : cli_case) : bool :=
   | _ => false
   end.
 
-(* overwrite of an existing migration: the file name does not depend on the version (pattern without
-   a version placeholder), or the version counter is saturated at u32::MAX *)
-Fixpoint uses_version (st : pstate) (s : string) : bool :=
-  match s with
-  | EmptyString => false
-  | String c r =>
-      let normal := if Ascii.eqb c "%"%char then uses_version PPercent r else uses_version PNormal r in
-      match st with
-      | PNormal => normal
-      | PPercent =>
-          if Ascii.eqb c "v"%char then true
-          else if Ascii.eqb c "m"%char then uses_version PNormal r
-          else if Ascii.eqb c "0"%char then uses_version (PWidth "") r
-          else normal
-      | PWidth d =>
-          if is_ascii_digit c then uses_version (PWidth d) r
-          else if Ascii.eqb c "v"%char then true
-          else normal
-      end
-  end.
-Definition known_C13_pattern_without_version (P : project) : bool :=
-  negb (uses_version PNormal (cf_pattern (pj_config P))).
-Definition known_C13_version_saturated (P : project) : bool :=
-  N.eqb (max_version P) u32_max.
-
 Definition classify_cli (c : cli_case) : list bool :=
-  [known_C13_sql_prefix (cc_project c); known_C13_invalid_enum_fill c;
-   known_C13_pattern_without_version (cc_project c); known_C13_version_saturated (cc_project c)].
+  [known_C13_sql_prefix (cc_project c); known_C13_invalid_enum_fill c].
